@@ -50,9 +50,11 @@ CALLS = {
     "hb": ("start", "start-other", "stop", "w1017-local", "w1017-zero-local", "w1017-sdo", "w1017-zero-sdo", "cmd", "assign"),
     "guard": ("start", "start-other", "stop", "stop"),
     "rpdo": ("start", "start-other-period", "stop", "set-var", "update"),
+    # node guarding of the same node id by a RemoteNode object on the OTHER network (a second master in the same process)
+    "guard2": ("start", "start-other", "stop"),
 }
-PRODUCERS = ("sync", "pdo", "hb", "guard", "rpdo")
-BUS_OF = {"sync": "master", "guard": "master", "pdo": "slave", "hb": "slave", "rpdo": "master"}
+PRODUCERS = ("sync", "pdo", "hb", "guard", "rpdo", "guard2")
+BUS_OF = {"sync": "master", "guard": "master", "pdo": "slave", "hb": "slave", "rpdo": "master", "guard2": "slave"}
 ALLCALLS = [(p, c) for p in PRODUCERS for c in sorted(set(CALLS[p]))]
 
 
@@ -121,6 +123,8 @@ class W:
         rod.add_object(world.var("C", 0x2002, 0, odm.UNSIGNED8, "rw", default=0))
         self.remote = canopen.RemoteNode(self.nid, rod)
         self.mnet.add_node(self.remote)
+        self.remote2 = canopen.RemoteNode(self.nid, canopen.ObjectDictionary())
+        self.remote2.associate_network(self.snet)       # (not in snet.nodes: that slot is the LocalNode's)
         rm = self.remote.rpdo[1]
         rm.cob_id = 0x200 + self.nid
         rm.enabled = ctx.choice(3, "rpdo-enabled") != 0
@@ -142,6 +146,8 @@ class W:
         self.models["hb"].can_id = 0x700 + self.nid
         self.models["guard"].can_id = 0x700 + self.nid
         self.models["guard"].remote = True
+        self.models["guard2"].can_id = 0x700 + self.nid
+        self.models["guard2"].remote = True
         self.models["rpdo"].can_id = 0x200 + self.nid
         self.hb_time = 0            # stored 0x1017 value
         self.state = 0              # slave NMT state number
@@ -346,7 +352,7 @@ def _do(ctx, w, prod, callname, flavour):
             m.payload = bytes([w.state])
             ctx.probe("hb-state-by-assignment")
     else:
-        g = w.remote.nmt
+        g = w.remote.nmt if prod == "guard" else w.remote2.nmt
         if callname in ("start", "start-other"):
             per = (0.01, 0.1, 1.0, 5.0)[ctx.choice(4, "per")]
             _, exc = call(g.start_node_guarding, per)
